@@ -113,4 +113,129 @@ theorem solvedUpdate_spec (isRoot : Bool) (cfg : PN.Cfg) (stats stats' : Stats) 
     · refine ⟨d, false, ?_⟩
       simp only [hc, if_false, Bool.false_eq_true]
 
+
+/-- one round of `updateAncestors` -/
+theorem updateStep_ok (hsb : SmallBranching G) (base : Nat) (st st1 : St S M) (b : Bool)
+    (hz : ZipOK G att st) (h : updateStep G base st = .ok (b, st1)) (han : st1.anomaly = false) :
+    ZipOK G att st1 ∧ st.anomaly = false := by
+  unfold updateStep at h
+  split at h
+  · exact absurd h (by simp)
+  · rename_i cur rest hst
+    simp only at h
+    -- the ghost flag of the result is the one computed here
+    have key : ∀ (f : Node M) (stt : Stats),
+        (({ st with anomaly := st.anomaly || (st.focus.children.isEmpty && (st.focus.phi == 0 || st.focus.delta == 0)),
+                    focus := f, stats := stt } : St S M).anomaly = false) →
+        st.anomaly = false ∧
+          (st.focus.children.isEmpty && (st.focus.phi == 0 || st.focus.delta == 0)) = false := by
+      intro f stt hh
+      simp only [Bool.or_eq_false_iff] at hh
+      exact hh
+    have hren : ∀ hno : (st.focus.children.isEmpty && (st.focus.phi == 0 || st.focus.delta == 0)) = false,
+        ZipOK G att { st with focus := setNumbers G cur st.focus } :=
+      fun hno => renumber_ok G att hsb st cur rest hz hst hno
+    split at h
+    · rename_i hsolved
+      split at h
+      · exact absurd h (by simp)
+      · rename_i stats' node' hsu
+        simp only [Except.ok.injEq, Prod.mk.injEq] at h
+        obtain ⟨_, h2⟩ := h
+        subst h2
+        obtain ⟨ha, hno⟩ := key _ _ han
+        refine ⟨?_, ha⟩
+        obtain ⟨d, drop, hn'⟩ := solvedUpdate_spec _ _ _ _ _ _ hsu
+        have hz1 := hren hno
+        have hz2 := focus_adjust_ok G att { st with focus := setNumbers G cur st.focus } d drop hz1 (by
+          intro _
+          simp only [Bool.or_eq_true, beq_iff_eq] at hsolved
+          exact hsolved)
+        rw [hn']
+        exact (ZipOK_congr G att rfl rfl rfl rfl).mp hz2
+    · split at h
+      · simp only [Except.ok.injEq, Prod.mk.injEq] at h
+        obtain ⟨_, h2⟩ := h
+        subst h2
+        obtain ⟨ha, hno⟩ := key _ st.stats han
+        exact ⟨(ZipOK_congr G att rfl rfl rfl rfl).mp (hren hno), ha⟩
+      · simp only [Except.ok.injEq, Prod.mk.injEq] at h
+        obtain ⟨_, h2⟩ := h
+        subst h2
+        obtain ⟨ha, hno⟩ := key _ st.stats han
+        exact ⟨(ZipOK_congr G att rfl rfl rfl rfl).mp (hren hno), ha⟩
+
+theorem ascend_same (st st' : St S M) (h : ascend st = some st') : SameRest st st' := by
+  unfold ascend at h
+  split at h
+  · injection h with h; subst h; exact ⟨rfl, rfl, rfl, rfl⟩
+  · exact absurd h (by simp)
+
+/-- the ghost flag only grows in `updateStep` -/
+theorem updateStep_mono (base : Nat) (st st1 : St S M) (b : Bool)
+    (h : updateStep G base st = .ok (b, st1)) (han : st1.anomaly = false) : st.anomaly = false := by
+  unfold updateStep at h
+  split at h
+  · exact absurd h (by simp)
+  · simp only at h
+    split at h
+    · split at h
+      · exact absurd h (by simp)
+      · simp only [Except.ok.injEq, Prod.mk.injEq] at h
+        obtain ⟨_, h2⟩ := h
+        subst h2
+        simp only [Bool.or_eq_false_iff] at han
+        exact han.1
+    · split at h <;>
+      · simp only [Except.ok.injEq, Prod.mk.injEq] at h
+        obtain ⟨_, h2⟩ := h
+        subst h2
+        simp only [Bool.or_eq_false_iff] at han
+        exact han.1
+
+theorem updateAncestors_mono (base : Nat) : ∀ (fuel : Nat) (st st' : St S M),
+    updateAncestors G base fuel st = .ok st' → st'.anomaly = false → st.anomaly = false := by
+  intro fuel
+  induction fuel with
+  | zero => intro st st' h; simp [updateAncestors] at h
+  | succ fuel ih =>
+    intro st st' h han
+    simp only [updateAncestors] at h
+    split at h
+    · exact absurd h (by simp)
+    · rename_i st1 hstep
+      injection h with h; subst h
+      exact updateStep_mono G base st st1 false hstep han
+    · rename_i st1 hstep
+      split at h
+      · exact absurd h (by simp)
+      · rename_i st2 hasc
+        have h2 := ih st2 st' h han
+        have h1 : st1.anomaly = false := by rw [← (ascend_same st1 st2 hasc).2.2.2]; exact h2
+        exact updateStep_mono G base st st1 true hstep h1
+
+theorem updateAncestors_ok (hsb : SmallBranching G) (base : Nat) : ∀ (fuel : Nat) (st st' : St S M),
+    ZipOK G att st → updateAncestors G base fuel st = .ok st' → st'.anomaly = false →
+    ZipOK G att st' := by
+  intro fuel
+  induction fuel with
+  | zero => intro st st' _ h; simp [updateAncestors] at h
+  | succ fuel ih =>
+    intro st st' hz h han
+    simp only [updateAncestors] at h
+    split at h
+    · exact absurd h (by simp)
+    · rename_i st1 hstep
+      injection h with h; subst h
+      exact (updateStep_ok G att hsb base st st1 false hz hstep han).1
+    · rename_i st1 hstep
+      split at h
+      · exact absurd h (by simp)
+      · rename_i st2 hasc
+        have h2 := updateAncestors_mono G base fuel st2 st' h han
+        have h1 : st1.anomaly = false := by rw [← (ascend_same st1 st2 hasc).2.2.2]; exact h2
+        obtain ⟨hz1, _⟩ := updateStep_ok G att hsb base st st1 true hz hstep h1
+        obtain ⟨hz2, _, _⟩ := ascend_ok G att st1 st2 hz1 hasc
+        exact ih st2 st' hz2 h han
+
 end C06
